@@ -37,7 +37,7 @@ prop("C05", run="^TestC05", level="exploration",
      technique="property-based testing (rapid): metamorphic relations between partial and full codec paths; byte-level mutation for the re-encode clause", design="DESIGN.md 4 C05")
 
 prop("C19", run="^TestC19", level="exploration",
-     quick=(1, 20000, 300), thorough=(16, 200000, 1800),
+     quick=(1, 20000, 300), thorough=(16, 200000, 10800),
      rule="every constant declared in primitive/constants.go (read from the working tree) plus full 8/16-bit domains, "
           "32-bit neighbourhoods / all 2^32 (thorough), near-miss and rapid-generated strings, every asserted cell of the "
           "spec capability table, all 256 version numbers; the version-list helpers (Supported*ProtocolVersions and the four comparisons x 6 pivots) against the spec list, three rounds with the caller overwriting every slice it was given, followed by the 8-bit IsSupported sweep; every case is non-trivial (each is one (type,value) or "
@@ -199,7 +199,8 @@ prop("C15", run="^TestC15", level="exploration",
           "(1 in 4 pairs contains a header-only envelope: OPTIONS bare or with flags, READY; up to ~330 KiB towards the library; what the library itself sends in v5 kept under one segment) x id discipline (all managed / distinct caller-chosen) x pipelining (all requests first, responses batched by the raw peer into one self-contained segment) x raw-peer segmentations (split of one envelope into 1..4+ segments at generated points, first part >= 9 bytes; LZ4-compressed or fallback segments). "
           "Raw peers use only the reference encoders/decoders and record wire conformance (handshake unframed, valid CRCs, envelopes inside segments not individually compressed, v5 envelopes not individually compressed). Oracle: frames received == frames sent (canonical equality) in both directions; bytes seen by the raw peer == reference encoding of the frame sent. "
           "Each session runs in a worker process. Non-trivial = >40 bytes exchanged and (compression or v5 or auth); distinct by session spec",
-     assumptions=["the library has no envelope splitter (documented TODO): envelopes it must SEND under v5 are kept below 131071 bytes", "EVENT responses and fatal ERROR codes (which close the connection by design) are excluded from the exchanged responses; STARTUP/AUTH_RESPONSE are not re-sent after the handshake"],
+     assumptions=["the library has no envelope splitter (documented TODO): envelopes it must SEND under v5 are kept below 131071 bytes", "EVENT responses and fatal ERROR codes (which close the connection by design) are excluded from the exchanged responses; STARTUP/AUTH_RESPONSE are not re-sent after the handshake",
+                  "open finding DEP-lz4-offset-wrap-65536: with LZ4 negotiated, envelopes the LIBRARY has to compress are kept at or below 65536 bytes (excluded by construction, counted in excluded_known); the raw peer's direction is not restricted"],
      text="Randomised end-to-end exploration over real sockets with an independent raw peer on either side; worker-isolated.",
      note="Trusted: the raw peer (rawpeer_test.go) built on harness/ref; 10 s bounds on every blocking step only turn a missing delivery into a failure.",
      technique="property-based testing (rapid) of socket sessions against an independent spec-derived raw peer; subprocess isolation", design="DESIGN.md 4 C15")
